@@ -95,7 +95,9 @@ def render(ops, with_state=True):
             t += [21, o['id']] + o['meta'].toks() + [o.get('exp', 0)]
         elif c in (22, 23):
             t += [c, o['id']]
-        elif c in (24, 25, 30, 31, 32):
+        elif c == 30:
+            t += [30, o.get('mode', 1), o.get('dim', 0), o.get('q', 0), o.get('metric', 0)]
+        elif c in (24, 25, 31, 32):
             t += [c]
         elif c == 26:
             t += [26, o['fk'], o['fa'], o['fb'], o['off'], o['lim']]
@@ -176,9 +178,31 @@ def gen_coll_history(rng, path, nops, big=False, reopen=0.05, ids=None, q=None, 
             return P(data=bytes(rng.randrange(256) for _ in range(n)))
         return P(seed=seedc[0], n=n)
 
+    ro = False
+
+    def reopen_op(mode):
+        o = {'op': 30, 'mode': mode}
+        if rng.random() < 0.5:       # conflicting options must be ignored
+            o.update({'dim': rng.randint(0, 12), 'q': rng.choice([0, 4, 8, 16, 32, 64]), 'metric': rng.randint(0, 1)})
+        return o
+
     for _ in range(nops):
         r = rng.random()
         id_ = rng.choice(pool)
+        if ro:
+            # read-only mapping: reads only, then back to a writable mode
+            if r < 0.3:
+                ops.append(reopen_op(rng.choice([0, 1])))
+                ro = False
+            elif r < 0.6:
+                ops.append({'op': 23, 'id': id_})
+            elif r < 0.75:
+                ops.append({'op': 24})
+            elif r < 0.85:
+                ops.append({'op': 25})
+            else:
+                ops.append({'op': 32})
+            continue
         if r < 0.34 or not live:
             ops.append({'op': 20, 'id': id_, 'vec': P(data=random_vec_bytes(rng, q, dim)), 'meta': meta()})
             live.add(id_)
@@ -203,10 +227,14 @@ def gen_coll_history(rng, path, nops, big=False, reopen=0.05, ids=None, q=None, 
             fa = rng.randint(1, 4)
             ops.append({'op': 26, 'fk': fk, 'fa': fa, 'fb': rng.randrange(fa), 'off': rng.choice([0, 0, 1, 2, 3, 50]), 'lim': rng.choice([0, 0, 1, 2, 5, 100])})
         elif r < 0.93 + reopen:
-            ops.append({'op': 30})
+            mode = rng.choice([0, 1, 1, 2])
+            ops.append(reopen_op(mode))
+            ro = mode == 2
         else:
             ops.append({'op': 32})
-    ops += [{'op': 24}, {'op': 25}, {'op': 32}, {'op': 30}, {'op': 32}]
+    if ro:
+        ops.append(reopen_op(1))
+    ops += [{'op': 24}, {'op': 25}, {'op': 32}, reopen_op(rng.choice([0, 1, 2])), {'op': 32}]
     for x in sorted(set(pool)):
         ops.append({'op': 23, 'id': x})
     return ops
@@ -285,47 +313,47 @@ def spec_check(ops, g):
     k = 0
     for i, o in enumerate(ops):
         if k >= len(g):
-            return {'op_index': i, 'what': 'implementation produced no output for this operation (process died?)'}
+            return {'op_index': i, 'kind': 'died', 'what': 'implementation produced no output for this operation (process died?)'}
         f = list(map(int, g[k].split()))
         c = o['op']
         k += 2 if c in (10, 11, 20, 21, 22, 30, 40, 41) else 1
         if f[0] != c:
-            return {'op_index': i, 'what': 'output desynchronised', 'line': g[k - 1]}
+            return {'op_index': i, 'kind': 'died', 'what': 'output desynchronised', 'line': g[k - 1]}
         if c not in (24, 25, 31, 32) and len(f) == 2 and f[1] == 2:
-            return {'op_index': i, 'what': 'operation panicked', 'line': ' '.join(map(str, f))}
+            return {'op_index': i, 'kind': 'panic', 'what': 'operation panicked', 'line': ' '.join(map(str, f))}
         if c == 20:
             spec[o['id']] = (o['meta'].bytes(), o['vec'].bytes())
             if f[1] != 0:
-                return {'op_index': i, 'what': 'AddDocument failed'}
+                return {'op_index': i, 'kind': 'add', 'what': 'AddDocument failed'}
         elif c == 21:
             if o['id'] in spec:
                 if f[1] != 0:
-                    return {'op_index': i, 'what': 'UpdateDocument of a live id failed'}
+                    return {'op_index': i, 'kind': 'update', 'what': 'UpdateDocument of a live id failed'}
                 spec[o['id']] = (o['meta'].bytes(), spec[o['id']][1])
             elif f[1] != 1:
-                return {'op_index': i, 'what': 'UpdateDocument of a dead id did not fail'}
+                return {'op_index': i, 'kind': 'update', 'what': 'UpdateDocument of a dead id did not fail'}
         elif c == 22:
             if o['id'] in spec:
                 if f[1] != 0:
-                    return {'op_index': i, 'what': 'removal of a live id failed'}
+                    return {'op_index': i, 'kind': 'remove', 'what': 'removal of a live id failed'}
                 del spec[o['id']]
             elif f[1] != 1:
-                return {'op_index': i, 'what': 'removal of a dead id did not fail'}
+                return {'op_index': i, 'kind': 'remove', 'what': 'removal of a dead id did not fail'}
         elif c == 23:
             if o['id'] in spec:
                 md, vb = spec[o['id']]
                 want = [23, 0, len(md), hash_bytes(md), len(vb), hash_bytes(vb)]
                 if f != want:
-                    return {'op_index': i, 'what': 'GetDocument differs from the last write', 'got': f, 'want': want}
+                    return {'op_index': i, 'kind': 'get', 'what': 'GetDocument differs from the last write', 'got': f, 'want': want}
             elif f[1] != 1:
-                return {'op_index': i, 'what': 'GetDocument of a dead id did not fail', 'got': f}
+                return {'op_index': i, 'kind': 'get', 'what': 'GetDocument of a dead id did not fail', 'got': f}
         elif c == 24:
             want = [24, len(spec)] + sorted(spec)
             if f != want:
-                return {'op_index': i, 'what': 'GetAllIDs differs from the live ids ascending', 'got': f, 'want': want}
+                return {'op_index': i, 'kind': 'ids', 'what': 'GetAllIDs differs from the live ids ascending', 'got': f, 'want': want}
         elif c == 25:
             if f != [25, len(spec)]:
-                return {'op_index': i, 'what': 'GetDocumentCount differs', 'got': f, 'want': [25, len(spec)]}
+                return {'op_index': i, 'kind': 'count', 'what': 'GetDocumentCount differs', 'got': f, 'want': [25, len(spec)]}
         elif c == 26:
             full = [(id_, spec[id_][0]) for id_ in sorted(spec, key=lambda x: str(x))]
             fk, fa, fb = o['fk'], o['fa'], o['fb']
@@ -344,10 +372,10 @@ def spec_check(ops, g):
             for id_, md in page:
                 want += [id_, len(md), hash_bytes(md)]
             if f != want:
-                return {'op_index': i, 'what': 'listing page is not the slice [offset, offset+limit) of the filtered listing', 'got': f, 'want': want}
+                return {'op_index': i, 'kind': 'listing', 'what': 'listing page is not the slice [offset, offset+limit) of the filtered listing', 'got': f, 'want': want}
         elif c == 30:
             if f[1] != 0:
-                return {'op_index': i, 'what': 'reopen failed or options changed', 'got': f}
+                return {'op_index': i, 'kind': 'reopen', 'what': 'reopen failed or options changed', 'got': f}
     return None
 
 
